@@ -26,6 +26,10 @@ def opCfg : List String → Option String
     | some f => pure s!"err {f} doc={boolStr doc} offends={boolStr (decide (Config.Offends c f))}"
   | _ => none
 
+/-- "nil" ↦ none, otherwise a hex string ("-" = empty). -/
+def parseOptHex (s : String) : Option (Option (List Char)) :=
+  if s == "nil" then some none else some <$> parseHexStr s
+
 /-! Error expressions, prefix notation. -/
 partial def parseErr : List String → Option (Classify.Err × List String)
   | "leaf" :: t :: ids :: rest => do
@@ -52,10 +56,10 @@ partial def parseErr : List String → Option (Classify.Err × List String)
     let (e, rest') ← parseErr rest
     pure (.tokval1 (← parseHexStr a) (← parseHexStr b) (← parseHexStr c) e, rest')
   | "va0" :: a :: b :: c :: rest => do
-    pure (.validation0 (← parseHexStr a) (← parseHexStr b) (← parseHexStr c), rest)
+    pure (.validation0 (← parseHexStr a) (← parseOptHex b) (← parseHexStr c), rest)
   | "va1" :: a :: b :: c :: rest => do
     let (e, rest') ← parseErr rest
-    pure (.validation1 (← parseHexStr a) (← parseHexStr b) (← parseHexStr c) e, rest')
+    pure (.validation1 (← parseHexStr a) (← parseOptHex b) (← parseHexStr c) e, rest')
   | _ => none
 
 def isPermanent (e : Option Classify.Err) : Bool := Classify.classify (fun _ => false) Gen.permanentSteps e
